@@ -116,6 +116,10 @@ structure GroupMapping where
   groupId : Nat
   endpoints : List Nat
   hasAuxAcl : Option Bool
+  /-- `GroupEndpointMapping::groupcast_managed()` = `mcast_policy.is_some()`: the membership was
+  created or taken over by the Groupcast cluster (`groupcast_join`); `Groups::remove` keeps such an
+  entry even with no endpoints left. Irrelevant for the access decision. -/
+  managed : Bool := false
 deriving DecidableEq, Repr, Inhabited
 
 /-- `GroupEndpointMapping::has_aux_acl` -/
@@ -376,6 +380,123 @@ def fabricsSetHasAux (fabrics : List Fabric) (fab gid : Nat) (v : Bool) : Option
     match groupsSetHasAux f.groups gid v with
     | (gs, some changed) => some (fabricsUpdate fabrics fab (fun _ => { f with groups := gs }), changed)
     | (_, none) => none
+
+/-! ### the PRODUCTION mutators
+
+`Fabric::acl_add` above is the API / test entry point. What runs on a commissioned node: the Access
+Control cluster handler (`dm/clusters/acl.rs:115-131`: `acl_remove_all`, `acl_add_init`,
+`acl_update_init`, `acl_remove`), the Groups cluster (`Groups::add`, `Groups::remove`), the Groupcast
+cluster (`groupcast_join`, `groupcast_remove`) and start-up (`Fabrics::load_persist`). -/
+
+/-- `Fabric::acl_add_init`: like `acl_add` but WITHOUT the rejection of PASE entries (commented out
+in the Rust); stamps the fabric index after the push; bounded list. -/
+def Fabric.aclAddInit (f : Fabric) (e : Entry) : Option (Fabric × Nat) :=
+  if f.acl.length < Consts.maxAclEntriesPerFabric then
+    some ({ f with acl := f.acl ++ [{ e with fabIdx := some f.fabIdx }] }, f.acl.length)
+  else none
+
+/-- `Fabric::acl_update` and `acl_update_init`: replace entry `idx`, stamped with the fabric index;
+`none` = `NotFound` -/
+def Fabric.aclUpdate (f : Fabric) (idx : Nat) (e : Entry) : Option Fabric :=
+  if f.acl.length ≤ idx then none
+  else some { f with acl := f.acl.set idx { e with fabIdx := some f.fabIdx } }
+
+/-- `Fabric::acl_remove`; `none` = `NotFound` -/
+def Fabric.aclRemove (f : Fabric) (idx : Nat) : Option Fabric :=
+  if f.acl.length ≤ idx then none else some { f with acl := f.acl.eraseIdx idx }
+
+/-- `Fabric::acl_remove_all` -/
+def Fabric.aclRemoveAll (f : Fabric) : Fabric := { f with acl := [] }
+
+/-- `fabrics.fabric_mut(fab)?` + a fallible mutation of that fabric -/
+def fabricsMutate (fabrics : List Fabric) (fab : Nat) (g : Fabric → Option Fabric) : Option (List Fabric) :=
+  match fabricsGet fabrics fab with
+  | none => none
+  | some f =>
+    match g f with
+    | none => none
+    | some f' => some (fabricsUpdate fabrics fab (fun _ => f'))
+
+def fabricsAclAddInit (fabrics : List Fabric) (fab : Nat) (e : Entry) : Option (List Fabric × Nat) :=
+  match fabricsGet fabrics fab with
+  | none => none
+  | some f =>
+    match f.aclAddInit e with
+    | none => none
+    | some (f', i) => some (fabricsUpdate fabrics fab (fun _ => f'), i)
+
+def fabricsAclUpdate (fabrics : List Fabric) (fab idx : Nat) (e : Entry) : Option (List Fabric) :=
+  fabricsMutate fabrics fab (fun f => f.aclUpdate idx e)
+def fabricsAclRemove (fabrics : List Fabric) (fab idx : Nat) : Option (List Fabric) :=
+  fabricsMutate fabrics fab (fun f => f.aclRemove idx)
+def fabricsAclRemoveAll (fabrics : List Fabric) (fab : Nat) : Option (List Fabric) :=
+  fabricsMutate fabrics fab (fun f => some f.aclRemoveAll)
+
+/-- `group_id.is_some_and(|id| id != entry.group_id)` negated: the entry is concerned -/
+def groupHit (gid : Option Nat) (e : GroupMapping) : Bool :=
+  match gid with
+  | some id => id == e.groupId
+  | none => true
+
+/-- `Groups::remove(endpoint_id, group_id)`: the endpoint leaves the group (`none`: every group);
+entries left without endpoints are dropped unless Groupcast-managed. Second component: "removed". -/
+def groupsRemove (groups : List GroupMapping) (ep : Nat) (gid : Option Nat) : List GroupMapping × Bool :=
+  let removed := groups.any (fun e => groupHit gid e && e.endpoints.contains ep)
+  let upd := groups.map (fun e =>
+    if groupHit gid e then { e with endpoints := e.endpoints.filter (· != ep) } else e)
+  (upd.filter (fun e => !e.endpoints.isEmpty || e.managed), removed)
+
+/-- the endpoint pushes of `groupcast_join`: duplicates omitted; on overflow the error is returned
+with the endpoints pushed so far left in place -/
+def joinEndpoints : List Nat → List Nat → List Nat × Bool
+  | cur, [] => (cur, true)
+  | cur, ep :: rest =>
+    if cur.contains ep then joinEndpoints cur rest
+    else if cur.length < Consts.groupEndpointsPerFabric then joinEndpoints (cur ++ [ep]) rest
+    else (cur, false)
+
+/-- apply `g` to the first entry with that group id (`iter_mut().find(..)`) -/
+def groupsUpdFirst : List GroupMapping → Nat → (GroupMapping → GroupMapping) → List GroupMapping
+  | [], _, _ => []
+  | e :: rest, gid, g => if e.groupId == gid then g e :: rest else e :: groupsUpdFirst rest gid g
+
+/-- `Groups::groupcast_join(group_id, endpoints, replace, _)`: new state and `Ok`? — the state
+changes also when the error is returned (a created membership / the endpoints pushed so far stay). -/
+def groupsGroupcastJoin (groups : List GroupMapping) (gid : Nat) (eps : List Nat) (replace : Bool) :
+    List GroupMapping × Bool :=
+  match groups.find? (fun e => e.groupId == gid) with
+  | some e =>
+    let r := joinEndpoints (if replace then [] else e.endpoints) eps
+    (groupsUpdFirst groups gid (fun e => { e with endpoints := r.1, managed := true }), r.2)
+  | none =>
+    if groups.length < Consts.maxGroupsPerFabric then
+      let r := joinEndpoints [] eps
+      (groups ++ [{ groupId := gid, endpoints := r.1, hasAuxAcl := some false, managed := true }], r.2)
+    else (groups, false)
+
+/-- `Groups::groupcast_remove` -/
+def groupsGroupcastRemove (groups : List GroupMapping) (gid : Nat) : List GroupMapping :=
+  groups.filter (fun e => e.groupId != gid)
+
+/-- `fabrics.fabric_mut(fab)?.groups_mut()` + a mutation of the group table -/
+def fabricsGroupsMutate (fabrics : List Fabric) (fab : Nat) (g : List GroupMapping → List GroupMapping) :
+    Option (List Fabric) :=
+  fabricsMutate fabrics fab (fun f => some { f with groups := g f.groups })
+
+/-- `Fabrics::load_persist`: `reset()`, then for `fab_idx in 1..=255` the blob under key
+`FABRIC_KEYS_START + fab_idx`, decoded by the derived `FromTLV` of `Fabric` — index, entries (with
+their own `fab_idx` fields) and group table come VERBATIM from the blob. `blobs i` = the decoded
+content of that key (`none` = absent). (`push_init` fails with `ResourceExhausted` beyond
+`MAX_FABRICS`; the model loads them all — a superset.) -/
+def fabricsLoad (blobs : Nat → Option Fabric) : List Fabric := (List.range' 1 255).filterMap blobs
+
+/-- what `FabricPersist::store` leaves in storage for a fabric table: the fabric with index `i`
+under key `i` -/
+def fabricsBlobs (fabrics : List Fabric) : Nat → Option Fabric :=
+  fun i => fabrics.find? (fun f => f.fabIdx == i)
+
+/-- store every fabric, restart, `load_persist` -/
+def fabricsReload (fabrics : List Fabric) : List Fabric := fabricsLoad (fabricsBlobs fabrics)
 
 /-! # Specification (from the text of C05)
 
